@@ -36,9 +36,14 @@ if __name__ == "__main__":
     t0 = time.time()
     solve.discharge(eng.obligations)
     for ob in eng.obligations:
+        if ob.kind == "canary":
+            if ob.result == "valid":
+                print("  !!! CANARY PROVED (inconsistent path):", ob.name)
+            continue
         if ob.result != "valid" or "-a" in sys.argv:
             print(f"  [{ob.result}] {ob.name} ({ob.backend}, {ob.time:.2f}s) {ob.clause[:100]} {ob.info.get('reason','')}")
-    n = len(eng.obligations)
-    print(f"{sum(1 for o in eng.obligations if o.result=='valid')}/{n} valid; solve {time.time()-t0:.1f}s; quick {eng.quick_calls} calls {eng.quick_time:.1f}s")
+    real = [o for o in eng.obligations if o.kind != "canary"]
+    n = len(real)
+    print(f"{sum(1 for o in real if o.result=='valid')}/{n} valid; solve {time.time()-t0:.1f}s; quick {eng.quick_calls} calls {eng.quick_time:.1f}s")
     for nt in eng.notes:
         print("note:", nt)
